@@ -224,6 +224,31 @@ def run_directed(ctx):
     return len(pairs)
 
 
+def run_variable_keys(ctx):
+    """a variable used as a map key (`Resources.%names`), continued by an index, [*], a key - for variables that hold no value at all
+    (a filter that selects nothing, an empty list, a missing path), one, two, a value that is no string: a verdict or an error, never a crash"""
+    doc = json.dumps({'Resources': {'web': {'Type': 'T', 'n': 1}, 'db': {'Type': 'U', 'n': 2}}, 'Names': ['web', 'db'], 'One': 'web', 'Empty': [], 'Num': 3, 'Mixed': ['web', 7, None]})
+    lets = ("let none = Resources.*[ Type == 'zzz' ].Name\nlet names = Names[*]\nlet one = One\nlet emp = Empty[*]\nlet num = Num\nlet gone = Nope.x\nlet mixed = Mixed[*]\n")
+    jobs, meta = [], []
+    k = 0
+    for var in ('none', 'names', 'one', 'emp', 'num', 'gone', 'mixed'):
+        for cont in ('', '[0]', '[1]', '[5]', '[*]', '.n', '[0].n', '[*].n', '[ n == 1 ]'):
+            rules = lets + 'rule r {\n  Resources.%%%s%s exists\n}\nrule s {\n  some Resources.%%%s%s !empty\n}\nrule t when Resources.%%%s%s exists {\n  Num == 3\n}\n' % (var, cont, var, cont, var, cont)
+            dd = os.path.join(ctx.wd, 'vk%d' % k); k += 1
+            e2e.write_files(dd, {'r.guard': rules, 'd.json': doc})
+            for flags in ([], ['--structured', '-o', 'json', '-S', 'none']):
+                jobs.append({'args': ['validate', '-r', 'r.guard', '-d', 'd.json'] + flags, 'cwd': dd}); meta.append(rules)
+    n = 0
+    for rules, (code, so, se) in zip(meta, e2e.run_many(jobs, timeout=30)):
+        n += 1
+        if code == 'timeout' or code in CRASH_CODES or (isinstance(code, int) and code < 0):
+            classify_crash(ctx, 'variable as a map key: validate crashes with status %s: %s' % (code, se.decode('utf-8', 'replace').split('\n')[0][:160]),
+                           {'rules': rules, 'data': doc, 'stderr': se[:600].decode('utf-8', 'replace')}, rules)
+    ctx.coverage['variable_key_runs'] = n
+    ctx.coverage['evaluations'] += n
+    return n
+
+
 def run_cli_directed(ctx):
     """command-line shapes enumerated rather than sampled: a failing CloudFormation resource that comes from an input-parameter file
     longer than the data file (console excerpts), test-data directories that mix well-formed, truncated and empty files in every
@@ -552,7 +577,7 @@ def run(ctx):
     n1 = model_correspondence(ctx, 2500 if thorough else 300)
     n2 = fuzz(ctx, 1500 if thorough else 150)
     n3 = run_directed(ctx)
-    n4 = run_prefixes(ctx) + run_cli_directed(ctx)
+    n4 = run_prefixes(ctx) + run_cli_directed(ctx) + run_variable_keys(ctx)
     from .. import fullparse as _fp
     n4 += _fp.check_files(ctx, 'c08file', 2500 if thorough else 500)      # acceptance / rejection of whole files: Model/FullParse.v against rules_file
     ctx.coverage['distinct_nontrivial'] = n1 + n2 + n3 + n4
